@@ -82,10 +82,15 @@ InitRot ==
 \* frames of a trajectory: the particles move by frame-dependent integer steps
 MovePos(pi, f) == [i \in 1..4 |-> VAdd(PosSets[pi][i], <<(f * i) % 3, (f + 2 * i) % 2>>)]
 InitSeries ==
-  \E F \in 3..5, pi \in {1, 4}, ci \in {1, 4}, wp \in {0, 2}, dti \in 1..2, dts \in {1, 10} :
+  \* dti = 3: the usual MD setting, decimal time step 0.002 with dumps every 50 steps (interval 0.1)
+  \* (six frames only there: 0.5 / 0.1 is the first exact multiple at which floor division of the floats differs)
+  \E F \in 3..6, pi \in {1, 4}, ci \in {1, 4}, wp \in {0, 2}, dti \in 1..3, dts \in {1, 10, 50} :
     \E m4 \in 4..(4 * (F - 1) + 3) :
-      LET dt == << <<1, 2>>, <<3, 4>> >>[dti] IN
-      /\ (Quick => (F + pi + ci + wp + dti + dts + m4) % 8 = 0)
+      LET dt == << <<1, 2>>, <<3, 4>>, <<1, 500>> >>[dti] IN
+      /\ (dti = 3) <=> (dts = 50)
+      /\ (F = 6) => (dti = 3 /\ m4 = 20)
+      /\ (dti = 3) => (m4 % 4 = 0 \/ m4 % 4 = 2)
+      /\ (Quick => (dti = 3 /\ (F + pi + ci + wp + m4) % 2 = 0) \/ (F + pi + ci + wp + dti + dts + m4) % 8 = 0)
       /\ (F + pi + ci + wp + dti + dts + m4) % NSHARDS = SHARD
       /\ cfg = [ls |-> {4 + 2 * ((F + m4) % 2)}, dts |-> dts, dt |-> dt,
                 period |-> RMul(B2Interval(dts, dt), <<m4, 4>>), m4 |-> m4,
